@@ -186,6 +186,8 @@ def write_group(decls, pkgdir, fname='k.go'):
     if any(d.get('pkg_ctx') for d in decls):
         s += 'var ctx = context.Background()\n\n'
     for d in decls:
+        if d.get('shared'):
+            continue      # uses the types and provider functions of its sibling declaration
         s += emit_types(d) + '\n'
         for p in d['providers']:
             if p['kind'] == 'fn':
